@@ -28,7 +28,7 @@ func C05(o *world.Obs) *Result {
 			if k == "Connection" {
 				continue // the serialiser writes its own framing line
 			}
-			for _, v := range c.RespHdr.Values(k) {
+			for _, v := range append(c.RespHdr.Values(k), c.Trailer.Values(k)...) {
 				if !bytes.Contains([]byte(v), []byte("hop"+strconv.Itoa(c.Serial)+";")) {
 					continue
 				}
@@ -91,7 +91,14 @@ func C05(o *world.Obs) *Result {
 		// trailer fields are part of the stored response as well
 		if len(src.Trailer) > 0 && !ex.Req.HoldBody && ex.Req.Method != "HEAD" {
 			r.Label("from-store-with-trailer")
-			if d := world.DiffHeader(src.Trailer, ex.Resp.Trailer); d != "" {
+			want := src.Trailer.Clone()
+			for k := range model.HopByHop(src.RespHdr) {
+				if len(want.Values(k)) > 0 {
+					r.Label("hop-by-hop-trailer")
+					want.Del(k) // named by Connection: hop-by-hop wherever it was sent
+				}
+			}
+			if d := world.DiffHeader(want, ex.Resp.Trailer); d != "" {
 				r.Fail("C05", "trailer-differs", ex.Idx, "trailer fields of stored reply s%d: %s; %s", src.Serial, d, SummarizeExchange(o, ex))
 			}
 		}
